@@ -9,8 +9,8 @@ import (
 
 func init() {
 	register(&propDef{
-		id:  "C19",
-		run: runC19,
+		id:          "C19",
+		run:         runC19,
 		explanation: "Static analysis of the structure Recover's correctness rests on (roles are identified semantically, not by variable name): (1) every recovered table is registered at the constant level 0 with its own file number and the scanned size/key range; (2) the sequence recorded in the fresh manifest originates only from sequence numbers parsed out of scanned keys, through two running maxima (per table, then overall), and the file-number allocator is advanced past the highest table of the sorted listing; (3) a damaged table is rebuilt through a closed+synced temporary file before it is renamed over the original, the reader is closed before the rename, and a fresh manifest is created before the commit — both on every success path; (4) error discipline: non-corruption I/O errors abort, corruption is only counted; a table with at least one good key is registered unless strict recovery sees damage — never silently dropped otherwise; damaged tables are rebuilt (when not strict) before registration; only well-formed keys are counted, copied and used for the key range; StrictReader is masked on a private copy of the options; (5) Recover continues into the ordinary open path (journal replay), never after a failed table recovery. What is actually recovered (content equality with the pre-damage DB) is NOT decided.",
 		notCovered:  "equality of recovered contents with the original; behaviour of level-0 lookups over the re-registered tables (that ordering is C01.3); which entries survive a damaged block",
 		assumptions: []string{"NoSync=false for the sync obligations"},
@@ -108,7 +108,17 @@ func runC19(p *Prog, r *Report) {
 		r.Begin("C19.1", "E-FLOW", "every recovered table is registered at level 0, under its own file number, with the size and key range established by the scan", 4)
 		if anchors() {
 			requireSites(p, r, rec, "registers", "the per-table closure registers the table", addTable, 1)
-			checkCallArg(p, r, rec, "level-0", "(*leveldb.sessionRecord).addTable", 1, mConstInt(0), "the constant level 0 (original placement is unknown: level-0 lookup orders by sequence)")
+			// wherever the registration happens (per-table closure or afterwards): the level is the constant 0
+			nReg := 0
+			withAnons(rt, func(f *ssa.Function) {
+				for _, c := range findCalls(f, "(*leveldb.sessionRecord).addTable") {
+					nReg++
+					r.Site(1)
+					lv := callCommon(c).Args[1]
+					r.Check(mConstInt(0)(lv), fnName(f), "level-0@"+branchLabel(c), "a recovered table is registered at the constant level 0 (its original placement is unknown and recovered tables may overlap: only level 0 resolves overlaps by sequence)", "registered at a non-zero or computed level at "+p.Pos(c.Pos())+": overlapping / boundary-sharing tables below level 0 make lookups return stale versions", p.Pos(c.Pos()))
+				}
+			})
+			r.Check(nReg >= 1, fnName(rt), "registers-somewhere", "recoverTable registers recovered tables", "no addTable call in recoverTable or its closures", p.Pos(rt.Pos()))
 			checkCallArg(p, r, rec, "own-number", "(*leveldb.sessionRecord).addTable", 2, func(v ssa.Value) bool {
 				u, ok := v.(*ssa.UnOp)
 				if !ok || u.Op != token.MUL {
